@@ -42,20 +42,17 @@ Proof.
   - intros ce c e _ Hc _ He. cbn.
     assert (Hi : in_index idx2 e) by (exists c; auto).
     apply ex_in_index in Hi. destruct Hi as [ -> | -> ]; reflexivity.
-  - assert (S1 : split_cell idx2 (2 ^ 58) = []) by (vm_compute; reflexivity).
-    assert (S2 : split_cell idx2 (3 * 2 ^ 58) = []) by (vm_compute; reflexivity).
-    intros q Hq. split.
-    + intros ce H. destruct Hq as [ -> | -> ]; [rewrite S1 in H|rewrite S2 in H]; contradiction.
-    + intros c Hc [[_ H]|(_ & H1 & H2)]; [cbn in H; discriminate|]. exfalso. cbn [fst] in H1, H2.
-      destruct Hq as [ -> | -> ]; destruct Hc as [ <- | [ <- | [] ] ]; cbn [fst] in H1, H2;
-        try (apply H2; reflexivity); vm_compute in H1; discriminate.
+  - intros q Hq (c & Hc & [[_ H]|(_ & H1 & H2)]); [cbn in H; discriminate|]. exfalso. cbn [fst] in H1, H2.
+    destruct Hq as [ -> | -> ]; destruct Hc as [ <- | [ <- | [] ] ]; cbn [fst] in H1, H2;
+      try (apply H2; reflexivity); vm_compute in H1; discriminate.
   - intros H. discriminate.
   - intros e. cbn. unfold dist2. destruct (snd e =? 0); reflexivity.
   - intros lim.
     assert (E : init_entries Z zops ex_target idx2 false lim = [(2 ^ 58, Some [(0, 0)]); (3 * 2 ^ 58, Some [(0, 1)])]).
     { unfold init_entries. destruct (d_eqb zops lim (d_inf zops)); vm_compute; reflexivity. }
     rewrite E. split.
-    + intros ce [ <- | [ <- | [] ] ]; (split; [unfold ex_vq; cbn; auto|]); intros es H e He; injection H as <-;
+    + intros ce [ <- | [ <- | [] ] ]; (split; [unfold ex_vq; cbn; auto|]);
+        (split; [|cbn; discriminate]); intros es H e He; injection H as <-;
         apply ex_in_index; cbn in He; intuition.
     + intros c [ <- | [ <- | [] ] ] _; [exists (2 ^ 58, Some [(0, 0)])|exists (3 * 2 ^ 58, Some [(0, 1)])];
         (split; [cbn; auto|left; split; reflexivity]).
